@@ -32,7 +32,8 @@ PROPS["C14"] = dict(
          "(normal, unit, huge dynamic range, constant), the first one solved again last. Non-trivial: some "
          "off-diagonal entry non-zero and (n>=3 or cyclic). Distinct: (n, cyclic, construction class, "
          "floor(log10 kappa), #rhs, rhs kind)."
-         " Third session: the solver lives in a std::vector and is relocated (move) or replaced by its copy after the first solve in a third of the cases; a quarter re-state the cyclic flag between solves; n in {10001, 12007, 20000} with 2-4 threads available (diagonally dominant class, Varah's bound on the condition number).",
+         " Third session: the solver lives in a std::vector and is relocated (move) or replaced by its copy after the first solve in a third of the cases; a quarter re-state the cyclic flag between solves; n in {10001, 12007, 20000} with 2-4 threads available (diagonally dominant class, Varah's bound on the condition number)."
+         " Rounds 8/9: cyclic systems with all entries times 2^k, |k| <= 60; the DiagonalSolver is relocated like the tridiagonal solver (copy/move constructed, copy/move assigned over another dimension) and solves every right-hand side.",
     technique="property-based testing (rapidcheck) + libFuzzer; differential against a long double reference solver",
     level_text="Generated SPD tridiagonal/cyclic systems are solved by the real solver and compared with an independent "
                "long double reference (dense partial pivoting for n<=64, LDL^T/bordering beyond) under condition-aware "
@@ -59,7 +60,8 @@ PROPS["C16"] = dict(
          "explicit zeros inserted; columns inside a row sorted/reversed/shuffled; all three CSR construction paths; "
          "n=1..60 and 120/300; 1-4 right-hand sides. Non-trivial: fill-in occurs or a row is stored unsorted. "
          "Distinct: (n, pattern+value+scale class, constructor, sortedness, zeros, fill, #rhs, rhs kind, log10 min pivot)."
-         " Third session: the solving object is obtained by construction, copy assignment or move assignment onto a solver holding another factorisation (dimension n-1, n, n+2), or copy construction.",
+         " Third session: the solving object is obtained by construction, copy assignment or move assignment onto a solver holding another factorisation (dimension n-1, n, n+2), or copy construction."
+         " Round 10: LU-product matrices with rows whose pivot comes from fill-in only (a_ii exactly zero, stored explicitly or absent).",
     technique="property-based testing (rapidcheck); differential against long double dense LU with Higham's componentwise bound",
     level_text="Generated sparse systems are solved by the real CSR container + SparseLUSolver and judged by the rigorous "
                "componentwise backward bound |b-Ax| <= c*gamma_3n*|L||U||x| (L,U from a long double factorisation "
@@ -83,7 +85,8 @@ PROPS["C15"] = dict(
          "after their first solve only through solve results against a dense long double reference). Non-trivial: the "
          "history contains a copy or move taken after the source acquired state (a solve for solver classes, any "
          "content for containers) and a later observation. Distinct: class + sequence of applied command kinds."
-         " Third session: std::swap and chained assignment commands; one vector in 25 has 10001-10007 entries and the harness runs with three threads.",
+         " Third session: std::swap and chained assignment commands; one vector in 25 has 10001-10007 entries and the harness runs with three threads."
+         " Round 9: self-move command (x = std::move(x)).",
     technique="stateful property-based testing (rapidcheck command sequences) against a value-semantics reference model, under ASan/UBSan",
     level_text="Model-based exploration of operation histories: the real objects and a trivially correct value model are "
                "driven by the same generated command sequence and compared after every step; ASan/UBSan watch the "
@@ -132,7 +135,8 @@ PROPS["C18"] = dict(
          "setup() on small grids) admits L-1 coarsenings, file round trip within 10^-p. ASan/UBSan/asserts silent. "
          "Non-trivial: anisotropic_factor>=1 or divideBy2>=1 or a file case. Distinct: (nr_exp, ntheta_exp, aniso, "
          "div, file mode, decile of refinement position, level cap)."
-         " Third session: Rmax also 10^U[-2,4] with a non-round mantissa, precisions 12-16 and 18; written files re-laid-out (1-5 numbers per line, tabs, blank lines) must load as the identical grid; one line inserted into / deleted from one half of the angle file: exception or a grid whose every angle has its antipodal partner.",
+         " Third session: Rmax also 10^U[-2,4] with a non-round mantissa, precisions 12-16 and 18; written files re-laid-out (1-5 numbers per line, tabs, blank lines) must load as the identical grid; one line inserted into / deleted from one half of the angle file: exception or a grid whose every angle has its antipodal partner."
+         " Round 10: radii up to 1e8, written precisions 12..18, 24, 30, 40.",
     technique="property-based testing (rapidcheck) under ASan/UBSan/assert; validity-predicate and metamorphic (refinement nesting, file round-trip) oracles",
     level_text="Generated parameter vectors (including the out-of-domain refinement radii the command line defaults to) "
                "drive the real grid constructor, the solver's own finest-grid/level-count code and the file I/O; every "
@@ -155,7 +159,8 @@ PROPS["C03"] = dict(
          "(long double gather stencil), compares coarse caches with fresh ones, and (small grids, 1 in 3) probes the full "
          "matrices of give and take entrywise. Non-trivial: non-circular geometry or non-uniform grid, both sections "
          "non-empty. Distinct: (dims, geometry, profile, BC, #circles, depth, threads)."
-         " Third session: 40% of the cases scale all vectors by 2^+-100 or 2^+-300; a fifth call the operators from inside an enclosing parallel region (team of one although several threads were requested); a quarter also evaluate take and give through a Level object first initialised for the other boundary mode.",
+         " Third session: 40% of the cases scale all vectors by 2^+-100 or 2^+-300; a fifth call the operators from inside an enclosing parallel region (team of one although several threads were requested); a quarter also evaluate take and give through a Level object first initialised for the other boundary mode."
+         " Round 10: Rmax of 1e4..1e7 and holes of 1e-12..1e-14 Rmax (an eighth of the cases each).",
     technique="property-based testing (rapidcheck); differential between five implementations and an independent long double reference operator, entrywise matrix probing",
     level_text="Each generated grid/geometry/profile/vector case runs all five residual implementations on every level of a "
                "harness-built hierarchy and compares them row by row with an independent reference operator under a "
@@ -182,7 +187,8 @@ PROPS["C05"] = dict(
          "inverse of the operator's principal sub-block, symmetric, positive definite (counter line_blocks_probed). "
          "Non-trivial: non-circular geometry (non-zero mixed terms) or "
          "non-uniform grid. Distinct: (dims, geometry, profile, BC, #circles, threads, vector kinds, probed)."
-         " Third session: 40% of the cases scale all vectors by 2^+-100 or 2^+-300.",
+         " Third session: 40% of the cases scale all vectors by 2^+-100 or 2^+-300."
+         " Round 9: the operator is also applied through Level::computeResidual (take and give, re-initialised Level), and y is scaled independently of x (2^-45..2^200).",
     technique="property-based testing (rapidcheck); algebraic-law oracle (bilinear symmetry, positivity) with rounding bounds, plus entrywise symmetry and Cholesky of probed matrices and of the functionally probed smoother line blocks",
     level_text="For generated operators the bilinear form is evaluated through the real residual implementations: "
                "|<Ax,y>-<x,Ay>| must stay below a per-case rounding bound and <Ax,x> must be positive beyond it, also "
@@ -291,7 +297,8 @@ PROPS["C09"] = dict(
          "iteration (own vectors, reference cycles), equality with a fresh object, start error <= 30x discretisation "
          "error. Non-trivial: non-uniform spacing (interp) or a non-fresh history (startup). Distinct: grid/split/threads/"
          "vector kind resp. hash of the option record + history."
-         " Third session: the reference nested iteration builds the right-hand sides of all levels itself and uses its own injection; accuracy judged only when rho^cycles <= 0.2 (hypothesis of the FMG theorem) and on parametric grids; start-up records also through setParameters(argc, argv), with file grids and verbose 0/1/2; interp part: deeper level pairs, Interpolation object used on an earlier pair, scaled vectors.",
+         " Third session: the reference nested iteration builds the right-hand sides of all levels itself and uses its own injection; accuracy judged only when rho^cycles <= 0.2 (hypothesis of the FMG theorem) and on parametric grids; start-up records also through setParameters(argc, argv), with file grids and verbose 0/1/2; interp part: deeper level pairs, Interpolation object used on an earlier pair, scaled vectors."
+         " Rounds 9/10: 0 smoothing steps on one side (judged by the equality with the reference nested iteration only); a fifth of the start-up cases use ntheta_exp = nr_exp or nr_exp-1 (hierarchies ending in four angular lines).",
     technique="property-based testing (rapidcheck); model-based oracle (long double Lagrange interpolation), polynomial exactness, differential against a reference nested iteration, metamorphic history independence",
     level_text="The interpolation is compared node by node with an independent Lagrange model and with exact polynomial "
                "values; the start-up is compared with a reference nested iteration written with fresh vectors and with a "
@@ -314,7 +321,8 @@ PROPS["C10"] = dict(
          "extrapolated correction); mode 1: f_h:=A_h u, f_c:=A_c Inj u makes u the exact solution, one cycle must return "
          "it within 1e3*eps*kappa_est*|u| (kappa_est: coarsest-level estimate x 4^(L-1)). Non-trivial: L>=3 or nu1+nu2>=1. Distinct: (cycle fn, smoothing mode, L, "
          "nu1, nu2, strategy, BC, dims, mode)."
-         " Third session: 2% of the cases on 257x512 grids (thorough also 513x1024) with 2-4 threads and up to 7 levels (level 1/2 above the 10 000-node parallel threshold); records through setParameters(argc, argv) in half of the cases; file grids; verbose 0/1/2 with stdout discarded; the reference uses its own injection; cycles without any smoothing on >= 3 levels are compared with the reference only (not judged by the fixed-point oracle).",
+         " Third session: 2% of the cases on 257x512 grids (thorough also 513x1024) with 2-4 threads and up to 7 levels (level 1/2 above the 10 000-node parallel threshold); records through setParameters(argc, argv) in half of the cases; file grids; verbose 0/1/2 with stdout discarded; the reference uses its own injection; cycles without any smoothing on >= 3 levels are compared with the reference only (not judged by the fixed-point oracle)."
+         " Round 10: a quarter of the cases run the full-multigrid start-up on the object first (FMG_iterations 0..2, all cycle types); it must leave the right-hand sides of levels 0 and 1 bitwise unchanged.",
     technique="property-based testing (rapidcheck) through a guarded friend hook; differential against a reference correction scheme, fixed-point and scratch-independence (metamorphic) oracles",
     level_text="Generated (cycle, levels, smoothing counts, iterate, scratch pollution) cases run the real private cycle "
                "functions and compare with an independently written recursive correction scheme using fresh vectors, check "
@@ -339,7 +347,8 @@ PROPS["C13"] = dict(
          "cumulative options is set up and solved; solution must be bit-identical (1 or 2 OpenMP threads), iteration count, "
          "reduction factor and exact errors equal. Non-trivial: >=2 solves with a state-carrying feature (combined mode, FMG, "
          "size change). Distinct: sequence of (setup?, mode, FMG, size, solves) + hash of the first option record."
-         " Third session: a third of the later rounds change only options solve() reads and do not call setup(); rounds with both tolerances disabled or 0 iterations; every statistic read after every solve; rejected rounds (take without cache, maxLevels 1, nr_exp 1) followed by reuse, also between setup() and solve(); verbose changes; file grids; setParameters() again with the same tuple and another Rmax; first configuration through setParameters(argc, argv) in half of the cases.",
+         " Third session: a third of the later rounds change only options solve() reads and do not call setup(); rounds with both tolerances disabled or 0 iterations; every statistic read after every solve; rejected rounds (take without cache, maxLevels 1, nr_exp 1) followed by reuse, also between setup() and solve(); verbose changes; file grids; setParameters() again with the same tuple and another Rmax; first configuration through setParameters(argc, argv) in half of the cases."
+         " Round 9: on a hierarchy set up in COMBINED mode the extrapolation mode is changed without setup(); 0 smoothing steps on one side.",
     technique="stateful property-based testing (rapidcheck command histories) against a fresh-object reference model (differential)",
     level_text="Model-based exploration of call histories on the public API: the reused object and a freshly constructed "
                "one must agree bit for bit after every solve of a generated history. Exploration.",
@@ -413,7 +422,8 @@ PROPS["C02"] = dict(
          "and the max norm (errors recomputed from solution() with fresh ExactSolution objects), extrapolated error < plain "
          "error on the finest grid. Known finding F12 (CartesianR6, max norm, order in [2.9,3.0]) excluded and counted. "
          "Non-trivial: finest >= 65x128. Distinct: (triple, BC, strategy+caches, k, R0 decade)."
-         " Third session: a third of the chains start from an anisotropic base grid (finding F22: max-norm order in [2.6,3.0] excluded and counted), interior Dirichlet radii up to 0.5 Rmax (annuli), a sixth are small two-level chains (33->65 radial nodes, l2 norm and 'extrapolated more accurate' judged); more than 8% inconclusive cases: exit 2.",
+         " Third session: a third of the chains start from an anisotropic base grid (finding F22: max-norm order in [2.6,3.0] excluded and counted), interior Dirichlet radii up to 0.5 Rmax (annuli), a sixth are small two-level chains (33->65 radial nodes, l2 norm and 'extrapolated more accurate' judged); more than 8% inconclusive cases: exit 2."
+         " Rounds 9/10: --Rmax from {1.3, 1.0, 2.0}; a sixth of the chains write every grid to files and load it back (load_grid_file) with the generator options, R0 included, left at their defaults.",
     technique="property-based testing (rapidcheck) with a metamorphic refinement relation: error ratios between successive uniform refinements of manufactured problems",
     level_text="For generated shipped problems the converged discrete solutions on two successive refinements are compared "
                "with the exact solution; the observed order must match the stated one in both norms, with and without "
@@ -444,7 +454,8 @@ PROPS["C20"] = dict(
          "option, --help) run as child processes of the ASan-built gmgpolar: exit 0, or a normal non-zero exit with a "
          "diagnostic on stderr; a signal (uncaught exception, assert, SEGV) or sanitizer report is a violation. "
          "Non-trivial: every api case, every cli case with arguments. Distinct: hash of the option record / argv."
-         " Third session: every statistic read after every solve; grid files with 12, 24, 20 angular divisions; second run with paraview on (scratch directory), setup() writing the grid files, and a setup() that must be rejected before the real setup() or between setup() and solve(); half of the parser-acceptable records through setParameters(argc, argv); command-line grammar with --paraview, --write_grid_file, --load_grid_file and the file name options.",
+         " Third session: every statistic read after every solve; grid files with 12, 24, 20 angular divisions; second run with paraview on (scratch directory), setup() writing the grid files, and a setup() that must be rejected before the real setup() or between setup() and solve(); half of the parser-acceptable records through setParameters(argc, argv); command-line grammar with --paraview, --write_grid_file, --load_grid_file and the file name options."
+         " Round 10: the command-line grammar also draws lexically unusual numbers for any option (out of range for int/double, trailing characters, signs, hexadecimal, nan/inf); every command line is run a second time, uninstrumented, under valgrind memcheck (uninitialised-value errors fail).",
     technique="property-based testing (rapidcheck) under ASan/UBSan with a differential uninitialised-memory detector (two memory patterns) and a grammar-based command-line fuzzer whose command lines are also run under valgrind memcheck",
     level_text="Generated option records and command lines exercise the public API and the shipped driver under sanitizers; "
                "the clean-rejection-or-clean-run contract and the well-definedness of every reported statistic are checked "
